@@ -55,7 +55,52 @@ def gen_case(rng, hist, stream):
     }
     if mal and J.well_formed(case['msg']) and all(J.value_wf(v) for _, v in attrs):
         case['msg'] = case['msg'] + [0xD800]
+    # multi-step: the SAME message object is mutated and formatted again
+    steps = []
+    if rng.random() < 0.3:
+        for _ in range(rng.choice([1, 2, 3, 5])):
+            op = rng.choice('SSAARUF')
+            if op in 'SU':
+                ks = [rng.choice(names) for _ in range(rng.choice([0, 1, 2, 3]))]
+                if keys and rng.random() < 0.5:
+                    ks.append(rng.choice(keys))  # re-set an existing name with another value
+                steps.append((op, [(J.units(k), J.gen_value(rng, hist, 1, mal)) for k in ks]))
+            elif op == 'A':
+                k = rng.choice(keys) if keys and rng.random() < 0.5 else rng.choice(names)
+                steps.append(('A', J.units(k), J.gen_value(rng, hist, 1, mal)))
+            elif op == 'R':
+                steps.append(('R', J.units(rng.choice(keys) if keys and rng.random() < 0.7 else rng.choice(names))))
+            else:
+                steps.append(('F', rng.randrange(2)))
+        steps.append(('F', rng.randrange(2)))
+        for st in steps:
+            hist['step_' + st[0]] = hist.get('step_' + st[0], 0) + 1
+    case['steps'] = steps
+    case['codec'] = rng.choice(['utf8', 'latin1'])  # locale codec of the harness process (must not matter)
     return case
+
+
+def records(c):
+    """the message state at each format() call: [(flag, attribute list with later-overrides semantics)]"""
+    attrs = list(c['attrs'])
+    out = [(c['flag'], list(attrs))]
+    for st in c.get('steps', []):
+        if st[0] == 'S':
+            attrs = list(st[1])
+        elif st[0] == 'U':
+            attrs = attrs + list(st[1])
+        elif st[0] == 'A':
+            attrs = attrs + [(st[1], st[2])]
+        elif st[0] == 'R':
+            attrs = [(k, v) for k, v in attrs if k != st[1]]
+        elif st[0] == 'F':
+            out.append((st[1], list(attrs)))
+    return out
+
+
+def view(c, flag, attrs):
+    v = dict(c); v['flag'] = flag; v['attrs'] = attrs; v['steps'] = []
+    return v
 
 
 def opt(us):
@@ -67,6 +112,19 @@ def line_of(c):
             str(c['line']), str(len(c['attrs']))]
     for k, v in c['attrs']:
         toks += [J.hx(k)] + J.value_tokens(v)
+    if c.get('steps'):
+        toks.append('|')
+        for st in c['steps']:
+            if st[0] in 'SU':
+                toks += [st[0], str(len(st[1]))]
+                for k, v in st[1]:
+                    toks += [J.hx(k)] + J.value_tokens(v)
+            elif st[0] == 'A':
+                toks += ['A', J.hx(st[1])] + J.value_tokens(st[2])
+            elif st[0] == 'R':
+                toks += ['R', J.hx(st[1])]
+            else:
+                toks += ['F', str(st[1])]
     return ' '.join(toks)
 
 
@@ -107,43 +165,64 @@ def python_oracle(c, time_tok, tid, out_units):
 
 
 def run_cases(impl, model, cases):
-    """returns list of dicts(time, tid, impl, model, verdict) aligned with cases"""
-    lines = [line_of(c) for c in cases]
-    rc, out_i, err = vlib.run_lines(impl, lines)
-    res = []
-    if rc != 0 or len(out_i) != len(lines):
-        return None, 'implementation crashed or stopped: rc=%s stderr=%s' % (rc, err[-400:])
-    mlines = []
-    for l, o in zip(lines, out_i):
+    """returns one dict per case: time, tid, recs = [{flag, attrs, impl, model, verdict}] (one per format() call)"""
+    out_i = [None] * len(cases)
+    for codec in ('utf8', 'latin1'):
+        idx = [i for i, c in enumerate(cases) if c.get('codec', 'utf8') == codec]
+        if not idx:
+            continue
+        lines = [line_of(cases[i]) for i in idx]
+        rc, o, err = vlib.run_lines(impl, lines, [codec] if codec != 'utf8' else [])
+        if rc != 0 or len(o) != len(lines):
+            return None, 'implementation crashed or stopped: rc=%s stderr=%s' % (rc, err[-400:])
+        for i, x in zip(idx, o):
+            out_i[i] = x
+    res, mlines = [], []
+    for c, o in zip(cases, out_i):
         t = o.split(' ')
-        if len(t) != 3:
-            return None, 'harness protocol error on %r -> %r' % (l, o)
-        mlines.append(' '.join([t[0], t[1], t[2], l]))
+        rs = records(c)
+        if len(t) != 2 + len(rs):
+            return None, 'harness protocol error on %r -> %r' % (line_of(c), o[:200])
+        recs = []
+        for (flag, attrs), impl_hex in zip(rs, t[2:]):
+            recs.append({'flag': flag, 'attrs': attrs, 'impl': impl_hex})
+            mlines.append(' '.join([t[0], t[1], impl_hex, line_of(view(c, flag, attrs))]))
+        res.append({'time': t[0], 'tid': int(t[1]), 'recs': recs})
     rc, out_m, err = vlib.run_lines(model, mlines)
-    if rc != 0 or len(out_m) != len(lines):
+    if rc != 0 or len(out_m) != len(mlines):
         return None, 'model driver failed: rc=%s stderr=%s' % (rc, err[-400:])
-    for o, m in zip(out_i, out_m):
-        t = o.split(' ')
-        mm = m.split(' ')
-        res.append({'time': t[0], 'tid': int(t[1]), 'impl': t[2], 'model': mm[0], 'verdict': mm[1] if len(mm) > 1 else '?'})
+    k = 0
+    for r in res:
+        for rec in r['recs']:
+            mm = out_m[k].split(' '); k += 1
+            rec['model'] = mm[0]
+            rec['verdict'] = mm[1] if len(mm) > 1 else '?'
+        r['impl'] = r['recs'][-1]['impl']; r['model'] = r['recs'][-1]['model']
     return res, None
 
 
+def differs(r):
+    return any(rec['impl'] != rec['model'] for rec in r['recs'])
+
+
 def judge(c, r):
-    """(kind, detail) if the implementation output falsifies the property on this case, else None"""
+    """(kind, detail) if some record of the implementation falsifies the property on this case, else None"""
     if c['stream'] == 'malformed':
         return None  # outside the quantifier: only diffed
-    po = python_oracle(c, r['time'], r['tid'], J.unhx(r['impl']))
-    if po:
-        return po
-    if r['verdict'] != '1':
-        return 'oracle', 'extracted oracle prop_c13_b rejects the implementation output (Python json accepted it)'
+    for n, rec in enumerate(r['recs']):
+        v = view(c, rec['flag'], rec['attrs'])
+        po = python_oracle(v, r['time'], r['tid'], J.unhx(rec['impl']))
+        where = '' if len(r['recs']) == 1 else ' [record %d of %d on the same message]' % (n + 1, len(r['recs']))
+        if po:
+            return po[0], po[1] + where
+        if rec['verdict'] != '1':
+            return 'oracle', 'extracted oracle prop_c13_b rejects the implementation output (Python json accepted it)' + where
     return None
 
 
 def shrink_case(c, still_fails):
     cur = dict(c)
-    for field in ('attrs', 'msg'):
+    for field in ('steps', 'attrs', 'msg'):
         def f(items, field=field):
             t = dict(cur); t[field] = list(items)
             return still_fails(t)
@@ -165,9 +244,11 @@ def describe(c, r):
             'category': None if c['cat'] is None else J.pystr(c['cat']), 'file': None if c['file'] is None else J.pystr(c['file']),
             'function': None if c['fn'] is None else J.pystr(c['fn']), 'line': c['line'],
             'attributes': [[repr(J.pystr(k)), ' '.join(J.value_tokens(v))] for k, v in c['attrs']],
+            'steps_after_first_format': [' '.join(line_of({**view(c, 0, []), 'steps': [st]}).split('| ', 1)[1:]) for st in c.get('steps', [])],
+            'locale_codec_of_the_process': c.get('codec', 'utf8'),
             'input_line': line_of(c),
-            'implementation_output': repr(J.pystr(J.unhx(r['impl']))) if r else None,
-            'model_output': repr(J.pystr(J.unhx(r['model']))) if r else None}
+            'implementation_records': [repr(J.pystr(J.unhx(rec['impl']))) for rec in r['recs']] if r else None,
+            'model_records': [repr(J.pystr(J.unhx(rec['model']))) for rec in r['recs']] if r else None}
 
 
 def run():
@@ -213,7 +294,7 @@ def run():
 
     diffs, bad = [], []
     for c, r in zip(cases, res):
-        if r['impl'] != r['model']:
+        if differs(r):
             diffs.append((c, r))
         j = judge(c, r)
         if j:
@@ -245,7 +326,9 @@ def run():
                 'null pointers, both modes); non-trivial = has attributes or a message character that is escaped / non-ASCII',
         'streams': {s: sum(1 for c in cases if c['stream'] == s) for s in ('wf', 'shadow', 'malformed')},
         'byte_exact_disagreements_model_vs_impl': len(diffs),
-        'oracle_evaluated_on_impl_outputs': len(wf_cases), 'oracle_falsified': len(bad),
+        'records_compared': sum(len(r['recs']) for r in res), 'multi_step_cases': sum(1 for c in cases if c.get('steps')),
+        'locale_codec': {k: sum(1 for c in cases if c.get('codec', 'utf8') == k) for k in ('utf8', 'latin1')},
+        'oracle_evaluated_on_impl_outputs': sum(len(r['recs']) for c, r in zip(cases, res) if c['stream'] != 'malformed'), 'oracle_falsified': len(bad),
         'python_json_parsed': len(wf_cases),
         'modes': {'compact': sum(c['flag'] for c in cases), 'indented': sum(1 - c['flag'] for c in cases)},
         'null_pointers': {'file': sum(c['file'] is None for c in cases), 'function': sum(c['fn'] is None for c in cases),
@@ -255,7 +338,7 @@ def run():
         'generator_histogram': dict(sorted(hist.items())),
     })
     for i in (0, len(cases) // 3, len(cases) - 1):
-        chk.samples.append({'input': line_of(cases[i])[:300], 'impl': J.pystr(J.unhx(res[i]['impl']))[:300], 'equal_to_model': res[i]['impl'] == res[i]['model']})
+        chk.samples.append({'input': line_of(cases[i])[:300], 'impl': J.pystr(J.unhx(res[i]['impl']))[:300], 'equal_to_model': not differs(res[i])})
     return chk.finish()
 
 
@@ -268,11 +351,12 @@ def replay(path):
         print(json.dumps(r, indent=1)); return 0
     vlib.gen_src(['json'])
     model = vlib.build_model('json'); impl = vlib.build_harness('json')
-    _, o, _ = vlib.run_lines(impl, [line])
+    codec = r.get('locale_codec_of_the_process', 'utf8')
+    _, o, _ = vlib.run_lines(impl, [line], [codec] if codec != 'utf8' else [])
     t = o[0].split(' ')
-    _, m, _ = vlib.run_lines(model, [' '.join(t + [line])])
-    print('input          ', line)
-    print('implementation ', repr(J.pystr(J.unhx(t[2]))))
-    print('model          ', repr(J.pystr(J.unhx(m[0].split(' ')[0]))))
-    print('oracle verdict on the implementation output (1 = holds):', m[0].split(' ')[1])
+    print('input          ', line, ' (locale codec %s)' % codec)
+    for n, h in enumerate(t[2:]):
+        print('implementation record %d' % (n + 1), repr(J.pystr(J.unhx(h))))
+    for n, h in enumerate(r.get('model_records') or []):
+        print('model record %d (as recorded)' % (n + 1), h)
     return 0
